@@ -28,6 +28,10 @@ pub struct RemoteLeg {
     pub wait1: usize,
     pub pause: bool,
     pub wait2: usize,
+    /// instead of closing early: let everything be parsed and compare the lifecycle table the client
+    /// accumulated from the server's incremental updates with the table of an unbounded reference run
+    #[serde(default)]
+    pub full: bool,
 }
 
 /// remote.rs wiring (parse -> lifecycle -> plugins -> [sort] -> server loop) with overridden channel
@@ -38,15 +42,23 @@ fn run_remote_leg(c: &PipeCase, r: &RemoteLeg, ctx: &mut Ctx) -> Result<(), Viol
     if trace.is_empty() {
         trace.push(TMsg { ecu: 0, boot: 0, rx_us: WALL_BASE_US, ts: 1, has_ts: true, kind: K_LOG, app: 0, mcnt: 0, n: 1, flags: 0 });
     }
-    let open = Cmd::Open { variant: 0, sort: r.sort, collect: r.collect.clone() };
+    // the full run needs a mode that parses without further commands (one_pass_streams starts paused)
+    let collect = if r.full { "true".to_string() } else { r.collect.clone() };
+    let open = Cmd::Open { variant: 0, sort: r.sort, collect };
     let mut cmds = vec![open.clone(), Cmd::Wait(r.wait1)];
-    if r.pause {
-        cmds.push(Cmd::Pause);
+    if r.full {
+        cmds.push(Cmd::WaitParsed);
+        cmds.push(Cmd::Wait(300));
+        cmds.push(Cmd::Close);
+    } else {
+        if r.pause {
+            cmds.push(Cmd::Pause);
+        }
+        cmds.push(Cmd::Close);
+        cmds.push(open);
+        cmds.push(Cmd::Wait(r.wait2));
+        cmds.push(Cmd::Close);
     }
-    cmds.push(Cmd::Close);
-    cmds.push(open);
-    cmds.push(Cmd::Wait(r.wait2));
-    cmds.push(Cmd::Close);
     let mut sc = c.sched.clone();
     sc.max_steps = 8_000_000;
     let session = Session { trace, cmds, sched: sc, server_max_read: 0, poll_budget: 30_000 };
@@ -61,6 +73,26 @@ fn run_remote_leg(c: &PipeCase, r: &RemoteLeg, ctx: &mut Ctx) -> Result<(), Viol
         }
     })?;
     crate::c15::check_transcript(&session, &t, ctx)?;
+    if r.full {
+        // what a client that follows the incremental lifecycle updates ends up with
+        let mut view: std::collections::BTreeMap<u32, (u32, u32, u64, u64)> = Default::default();
+        for e in t.events.iter() {
+            if let crate::remotesim::Ev::Lifecycles(l) = e {
+                for (id, ecu, n, st, en) in l {
+                    view.insert(*id, (*ecu, *n, *st, *en));
+                }
+            }
+        }
+        let reference = crate::lc::run_stage(vec![to_dlts(&session.trace, 0)], ctx)?;
+        let mut want: Vec<(u32, u32, u64, u64)> = reference.table.iter().filter(|l| !l.only_control_requests).map(|l| (u32::from_le_bytes(l.ecu), l.nr_msgs, l.resume_start, l.end)).collect();
+        let mut got: Vec<(u32, u32, u64, u64)> = view.values().cloned().collect();
+        want.sort();
+        got.sort();
+        if got != want {
+            viol!("remote-lifecycle-updates-stale", "remote.rs pipeline (sort={}, collect={}): the lifecycle table a client accumulates from the server's updates (ecu, msgs, start, end) {:?} differs from the table of the unbounded reference run {:?}", r.sort, r.collect, got, want);
+        }
+        ctx.probe("remote_lifecycle_updates_compared");
+    }
     ctx.event_u64(t.events.len() as u64);
     ctx.nontrivial = session.trace.len() > 1;
     Ok(())
@@ -264,7 +296,7 @@ impl Check for C13 {
         let sched = SchedCfg::gen(&mut rng.sub("sched"));
         let remote = if idx % 8 == 5 {
             let mut r = rng.sub("remote");
-            Some(RemoteLeg { sort: r.chance(1, 2), collect: (*r.pick(&["true", "true", "\"one_pass_streams\"", "false"])).to_string(), wait1: *r.pick(&[0usize, 0, 1, 3, 10, 50, 400]), pause: r.chance(1, 4), wait2: *r.pick(&[0usize, 2, 30]) })
+            Some(RemoteLeg { sort: r.chance(1, 2), collect: (*r.pick(&["true", "true", "\"one_pass_streams\"", "false"])).to_string(), wait1: *r.pick(&[0usize, 0, 1, 3, 10, 50, 400]), pause: r.chance(1, 4), wait2: *r.pick(&[0usize, 2, 30]), full: r.chance(1, 2) })
         } else {
             None
         };
@@ -374,7 +406,7 @@ impl Check for C13 {
         crate::lc::lc_finding_key(v)
     }
     fn rule() -> &'static str {
-        "one run = one simulated world (<= 300 messages) through a pipeline assembled like convert.rs from the public stages (lifecycle, optional plugins, optional sort, optional filter), every stage a shuttle thread sending with the blocking-send helper over sync_channels whose bounds are overridden per run (0/1/2/3-16/1024), producer and consumer stalling at random points, in 1 of 5 runs the consumer disappearing after k messages; compared with the same stages run to completion one after the other over unbounded channels; one run in eight uses the wiring of remote.rs instead (real create_parser_thread behind the server loop, sorted or not, collect modes) where the consumer leaves through `close` after 0-400 polls, optionally paused, followed by a second open/close: close must complete and be answered; one seeded schedule per run; non-trivial = more than one message; distinct = hash of (world, scheduler seed, capacities)"
+        "one run = one simulated world (<= 300 messages) through a pipeline assembled like convert.rs from the public stages (lifecycle, optional plugins, optional sort, optional filter), every stage a shuttle thread sending with the blocking-send helper over sync_channels whose bounds are overridden per run (0/1/2/3-16/1024), producer and consumer stalling at random points, in 1 of 5 runs the consumer disappearing after k messages; compared with the same stages run to completion one after the other over unbounded channels; one run in eight uses the wiring of remote.rs instead (real create_parser_thread behind the server loop, sorted or not, collect modes) where the consumer leaves through `close` after 0-400 polls, optionally paused, followed by a second open/close: close must complete and be answered; in half of these runs everything is parsed instead and the lifecycle table a client accumulates from the server's incremental updates is compared with the table of the unbounded reference run; one seeded schedule per run; non-trivial = more than one message; distinct = hash of (world, scheduler seed, capacities)"
     }
     fn assumptions() -> Vec<&'static str> {
         vec![
@@ -398,6 +430,6 @@ impl Check for C13 {
         vec!["producer and consumer threads", "thread scheduling, channels, sleep (shuttle + seam)", "world model"]
     }
     fn required_reach() -> Vec<&'static str> {
-        vec!["try_send_full", "blocking_send", "send_disconnected", "consumer_disappears", "small_channel_capacity", "remote_wiring_close_runs"]
+        vec!["try_send_full", "blocking_send", "send_disconnected", "consumer_disappears", "small_channel_capacity", "remote_wiring_close_runs", "remote_lifecycle_updates_compared"]
     }
 }
